@@ -112,6 +112,19 @@ def _r4_a3(prog: Program, res: Result, ev: Evaluator) -> None:
             continue
         seen.add((f.key, var))
         pa = None
+        # a type gate on an evaluated value that is later ORDERED (against another evaluated value, or inside the bound tables) must
+        # admit only types with a total order among themselves: int / float / bool (numbers.Real ..) - not complex, not numbers.Number
+        for t_ in walk_own(f.node):
+            if isinstance(t_, ast.Call) and isinstance(t_.func, ast.Name) and t_.func.id == "isinstance" and len(t_.args) == 2 \
+                    and isinstance(t_.args[0], ast.Name) and t_.args[0].id == var:
+                classes = [norm(e) for e in (t_.args[1].elts if isinstance(t_.args[1], ast.Tuple) else [t_.args[1]])]
+                numeric_gate = any(c_ in ("int", "float", "numbers.Real", "numbers.Number", "numbers.Complex", "complex", "numbers.Integral", "numbers.Rational") for c_ in classes)
+                if not numeric_gate:
+                    continue
+                unordered = [c_ for c_ in classes if c_ in ("complex", "numbers.Number", "numbers.Complex", "object")]
+                res.decide(not unordered, "R4.a", f.loc(t_), f.fq, f"{short(t_, 60)} # type gate of an evaluated value that is compared later",
+                           "admits types with a total order among themselves" if not unordered else
+                           f"{unordered} admit complex numbers: `x > 1j and x > 2` puts 1j into the table of bounds and `1j > 2` raises TypeError outside any handler")
         for u in walk_own(f.node):
             if not (isinstance(u, ast.Name) and u.id == var and isinstance(u.ctx, ast.Load)):
                 continue
